@@ -74,6 +74,7 @@ inductive Op9
   | release
   | marshal
   | sync
+  | hmarshal (script : List Outcome) (dflt : Outcome)
   | keep (script : List Outcome) (dflt : Outcome)
 
 def parseScript (s : String) : Option (List Outcome × Outcome) :=
@@ -131,6 +132,7 @@ def parseOp (s : String) : Option Op9 :=
   | ["release"] => some Op9.release
   | ["marshal"] => some Op9.marshal
   | ["sync"] => some Op9.sync
+  | ["hmarshal", sc] => (parseScript sc).map (fun r => Op9.hmarshal r.1 r.2)
   | ["keep", sc] => (parseScript sc).map (fun r => Op9.keep r.1 r.2)
   | _ => none
 
@@ -229,6 +231,20 @@ def runOps (max : Nat) (init : List Bytes) : DState → List Op9 → List String
       let dirty := if st.racy then st.dirty
                    else if event then !scriptClean (afterFirstFail st.s.world) else !scriptClean s'.world
       runOps max init { s := s', racy := st.racy || event, dirty := dirty } ops (saveStr init flag s' res n f :: acc)
+    | Op9.hmarshal sc d =>
+      -- a save under its own failure script (which ends with the op) while the successful Keep writes stay in
+      -- flight until the save waits for them: a save returns only after every write it started has returned
+      -- (contextGroup.Wait is a barrier, tie_cgWaitSkeleton), so for the model this is a save. Which group
+      -- meets which script entry is arrival order (any number of writers), hence "error iff a failure lies
+      -- within the first N entries" is all that is determined when the packing is still exact.
+      let w := { st.s.world with script := sc, dflt := d }
+      let (s1, res) := marshalFS md5Loc max { st.s with world := w }
+      let n := s1.world.calls - st.s.world.calls
+      let f := s1.world.fails - st.s.world.fails
+      let s' := { s1 with world := { s1.world with script := [], dflt := Outcome.ok } }
+      let event := f ≥ 1 && n ≥ 2
+      let flag := if !st.racy then (if event then "~" else "=") else (if scriptClean w then "~" else "?")
+      runOps max init { s := s', racy := st.racy || event, dirty := false } ops (saveStr init flag s' res n f :: acc)
 
 def needsSerial : Op9 → Bool
   | Op9.keep sc d => !(sc.isEmpty && d == Outcome.ok)
